@@ -13,7 +13,7 @@ use std::{
 
 use divan::{
     counter::{BytesCount, CharsCount, CyclesCount, ItemsCount},
-    verif::{api, clock, event, sched, Ev},
+    verif::{api, clock, event, sched, untracked, Ev},
     AllocProfiler, Bencher,
 };
 use serde_json::Value;
@@ -79,13 +79,15 @@ pub fn do_ops(site: &'static str, ops: &[AllocOp]) {
                 _ => {}
             }
         }
-        event(
-            Ev::new("alloc_op")
-                .s("site", site)
-                .s("op", &o.op)
-                .u("size", o.size as u128)
-                .u("new", o.new_size as u128),
-        );
+        untracked(|| {
+            event(
+                Ev::new("alloc_op")
+                    .s("site", site)
+                    .s("op", &o.op)
+                    .u("size", o.size as u128)
+                    .u("new", o.new_size as u128),
+            )
+        });
     }
 }
 
@@ -252,17 +254,17 @@ impl InShape for InSD {
 impl Drop for InZD {
     fn drop(&mut self) {
         let s = script();
-        s.visit("drop_in");
+        untracked(|| s.visit("drop_in"));
         do_ops("drop_in", &s.ops_drop_in);
-        sched::event_advancing(Ev::new("drop_in").u("id", 0), s.drop_in_cost);
+        untracked(|| sched::event_advancing(Ev::new("drop_in").u("id", 0), s.drop_in_cost));
     }
 }
 impl Drop for InSD {
     fn drop(&mut self) {
         let s = script();
-        s.visit("drop_in");
+        untracked(|| s.visit("drop_in"));
         do_ops("drop_in", &s.ops_drop_in);
-        sched::event_advancing(Ev::new("drop_in").u("id", self.0 as u128), s.drop_in_cost);
+        untracked(|| sched::event_advancing(Ev::new("drop_in").u("id", self.0 as u128), s.drop_in_cost));
     }
 }
 
@@ -294,17 +296,17 @@ impl OutShape for OutSD {
 impl Drop for OutZD {
     fn drop(&mut self) {
         let s = script();
-        s.visit("drop_out");
+        untracked(|| s.visit("drop_out"));
         do_ops("drop_out", &s.ops_drop_out);
-        sched::event_advancing(Ev::new("drop_out").u("id", 0), s.drop_out_cost);
+        untracked(|| sched::event_advancing(Ev::new("drop_out").u("id", 0), s.drop_out_cost));
     }
 }
 impl Drop for OutSD {
     fn drop(&mut self) {
         let s = script();
-        s.visit("drop_out");
+        untracked(|| s.visit("drop_out"));
         do_ops("drop_out", &s.ops_drop_out);
-        sched::event_advancing(Ev::new("drop_out").u("id", self.0 as u128), s.drop_out_cost);
+        untracked(|| sched::event_advancing(Ev::new("drop_out").u("id", self.0 as u128), s.drop_out_cost));
     }
 }
 
@@ -312,10 +314,10 @@ impl Drop for OutSD {
 
 fn gen<I: InShape>() -> I {
     let s = script();
-    s.visit("gen");
+    untracked(|| s.visit("gen"));
     do_ops("gen", &s.ops_gen);
     let id = if std::mem::size_of::<I>() == 0 { 0 } else { s.fresh() };
-    sched::event_advancing(Ev::new("gen").u("id", id as u128), s.gen_cost);
+    untracked(|| sched::event_advancing(Ev::new("gen").u("id", id as u128), s.gen_cost));
     I::make(id)
 }
 
@@ -329,25 +331,29 @@ fn count_value(s: &Script, id: u64, nth: u64) -> u64 {
 
 fn count<I: InShape>(kind: usize, input: &I) -> u64 {
     let s = script();
-    let nth = s.visit("count");
+    let nth = untracked(|| s.visit("count"));
     do_ops("count", &s.ops_count);
     let value = count_value(&s, input.id(), nth);
-    sched::event_advancing(
-        Ev::new("count").u("id", input.id() as u128).u("kind", kind as u128).u("value", value as u128),
-        s.count_cost,
-    );
+    untracked(|| {
+        sched::event_advancing(
+            Ev::new("count").u("id", input.id() as u128).u("kind", kind as u128).u("value", value as u128),
+            s.count_cost,
+        )
+    });
     value
 }
 
 /// The benchmarked function over an input identity.
 fn call<O: OutShape>(in_id: u64) -> O {
     let s = script();
-    let nth = s.visit("call");
+    let nth = untracked(|| s.visit("call"));
     let out_id = if std::mem::size_of::<O>() == 0 { 0 } else { s.fresh() };
-    event(Ev::new("call").u("in", in_id as u128).u("out", out_id as u128));
+    untracked(|| event(Ev::new("call").u("in", in_id as u128).u("out", out_id as u128)));
     do_ops("call", &s.ops_call);
-    clock::advance(s.call_cost(nth));
-    event(Ev::new("call_end").u("in", in_id as u128));
+    untracked(|| {
+        clock::advance(s.call_cost(nth));
+        event(Ev::new("call_end").u("in", in_id as u128))
+    });
     O::make(out_id)
 }
 
